@@ -1,6 +1,6 @@
 """C11 — configuration of the check (deductive tier under construction)."""
 PROPERTY = "C11"
-LEVEL = "other"
+LEVEL = "exploration"
 CONTRACT_MODULES = ["contracts.specfuns"]
 FUNCTIONS = []
 LEMMAS = []
